@@ -60,6 +60,20 @@ CLAIMED = {
          'points are the inherent ones (validation time, certificate/OCSP/credential validity now, serde defaults); no writable global besides the tabled ones; Store caches are per instance.'),
    note='Undecided: equality of reports. HashMap iteration order (RandomState) is not tracked. Trusted base: ' + TRUSTED,
    design='5/C38'),
+ 'C06': dict(
+   technique='R-LOGGED rule (log-before-Err on all paths, closures included) + obligation table on resolved callees + must-pass-through',
+   text=('Decides that, because verify_signature discards the profile result, every Err exit of the profile checkers is preceded by a signingCredential.* Failure log; '
+         'that each anchored profile rule (CA as end entity, validity, allowed EKU, ...) reaches such a log and an Err on its failing edge; that no Failure log lies on a path to Ok(()); '
+         'that the profile check is on every path to Ok(CertificateInfo).'),
+   note='Undecided: that each predicate (key size, OIDs, validity arithmetic) is right. Trusted base: ' + TRUSTED,
+   design='5/C06'),
+ 'C31': dict(
+   technique='MIR guarded-effect dominance over every raw-pointer dereference/reclaim site of c2pa_c_ffi (E4) + error-return/set_last path rule',
+   text=('Decides validate-before-deref for every pointer parameter of every C entry point and helper (null check; validate_pointer/untrack_pointer with the cast-target type for tracked '
+         'handle types), reclaim discipline (Box/Arc/CString/Vec from_raw only under untrack or in registry cleanup closures), tracked returns, set_last before every error-indicator return, '
+         'and the registry free/untrack/validate structure.'),
+   note='Undecided: address reuse after free (runtime), behaviour of C callers, callbacks invoked by the library with its own context. Trusted base: ' + TRUSTED,
+   design='5/C31'),
 }
 
 NA_REASONS = {
